@@ -208,12 +208,13 @@ LIVE_CLASS_BODIES = [
     ("plain", "    a = 1\n    b = 5\n"),
     ("annotation_only", "    a: int\n    b: Optional[str]\n"),
     ("with_call", "    a: int = 1\n\n    def __call__(self, c, d=2):\n        \"\"\"\n        Call.\n\n        :param c: the c\n        :param d: the d\n        \"\"\"\n        return c\n"),
+    ("with_static", "    a: int = 1\n\n    @staticmethod\n    def create(c, d=2):\n        \"\"\"\n        Create.\n\n        :param d: the d\n        \"\"\"\n        return c\n"),
     ("with_init", "    def __init__(self, a, b: int = 5):\n        \"\"\"\n        Init.\n\n        :param a: the a\n        :param b: the b\n        \"\"\"\n        self.a = a\n"),
 ]
 
 
 def live_classes():
-    for (dk, doc), (bk, body), merge in itertools.product(LIVE_CLASS_DOCS.items(), LIVE_CLASS_BODIES, (None, "__call__", "__init__")):
+    for (dk, doc), (bk, body), merge in itertools.product(LIVE_CLASS_DOCS.items(), LIVE_CLASS_BODIES, (None, "__call__", "__init__", "create")):
         if merge and merge not in body:
             continue
         src = "from typing import Optional\n\n\nclass Cfg(object):\n" + ('    """%s"""\n\n' % doc if doc is not None else "") + body
@@ -408,6 +409,22 @@ def run(case):
             n += 1
             transitions += 1
             fn = ast.parse(src).body[0]
+            # the function_type keyword only labels the interface: whatever is passed, the parameters are those of the signature
+            for ft in ("self", "cls", "static"):
+                transitions += 1
+                try:
+                    ir_ft = cdd.function.parse.function(ast.parse(src).body[0], function_type=ft)
+                except Exception:
+                    continue
+                if key["header"].startswith("def f(self") is False:
+                    want = [a.arg for a in fn.args.posonlyargs + fn.args.args + fn.args.kwonlyargs]
+                    got = [g for g in ir_ft["params"] if g in want]
+                    if sorted(got) != sorted(want):
+                        for clause, exp, obs, extra in [("signature_param_count", "every parameter of %r" % (want,), repr(list(ir_ft["params"])), dict(function_type=ft, times=0))]:
+                            sig = dict(check="wellformed", parser="function", clause=clause, source="partial", style=key["style"], n_documented=len(key["documented"]), header_kind=key["header"].split("(", 1)[1])
+                            sig.update(extra)
+                            if not any(x["sig"] == sig for x in viol):
+                                viol.append(dict(sig=sig, expected=exp, observed=obs, case=dict(kind="partial_one", key=key, src=src)))
             try:
                 ir = cdd.function.parse.function(fn)
             except Exception as e:
